@@ -215,7 +215,7 @@ struct Ctx<'a> {
 }
 
 fn run_type<B: BoxIO>(cx: &mut Ctx, name: &str, nshapes: usize, gen: &dyn Fn(&mut Rng, usize) -> Case<B>, variants: &dyn Fn(&Case<B>, &mut Rng) -> Vec<(&'static str, BoxT)>) {
-    let reps = cx.args.scale(240, 6000);
+    let reps = cx.args.scale(1200, 24_000);
     let prop = cx.args.prop.clone();
     for shape in 0..nshapes {
         for r in 0..reps {
@@ -410,7 +410,7 @@ pub fn run(args: &Args) -> i32 {
 /// (AAC object type escape, frequency index, channel configuration).
 fn c05_descriptors_and_accessors(args: &Args, rep: &mut Report) {
     use crate::model::*;
-    let n = args.scale(24_000, 480_000);
+    let n = args.scale(100_000, 2_000_000);
     for i in 0..n {
         if !args.mine(i) {
             continue;
@@ -476,7 +476,7 @@ fn c05_descriptors_and_accessors(args: &Args, rep: &mut Report) {
         rep.end();
     }
     // accessors through a whole reference file, including the QuickTime sound description forms
-    let n = args.scale(12_000, 240_000);
+    let n = args.scale(50_000, 1_000_000);
     for i in 0..n {
         if !args.mine(i) {
             continue;
